@@ -1,7 +1,7 @@
 """C14 -- aa-log shows every matching AppArmor event exactly once, and only those.
 
-In-process (engine/gox/cmd/c14x): every sequence of <= 2 (thorough 3) records over a 25-record alphabet and every
-sequence of 3 (thorough 4) records over a 15-record alphabet (file
+In-process (engine/gox/cmd/c14x): every sequence of <= 2 (thorough 3) records over a 27-record alphabet and every
+sequence of 3 (thorough 4) records over a 16-record alphabet (file
 DENIED/ALLOWED/AUDIT, user-space dbus, net, cap, signal, STATUS, foreign, blank, garbled, 70 KiB foreign and
 AppArmor lines, exact duplicate up to timestamp+pid, near duplicate, noise path, extra keys) x 3 carriers
 (audit, syslog, journald JSON) x 4 filters through the real logs.New / GetJournalctlLogs, compared with a
@@ -21,7 +21,7 @@ SITE_RE = re.compile(r'MAPX site=(\d+) count=(\d+) B=(\d+) alt=(\d+) fn=(\S+)')
 def binary_level(bins, ev, fnd, tier):
     out = os.path.join(C.scratch(), 'c14bin'); os.makedirs(out, exist_ok=True)
     plain, inst = overlay.build_tool(out, './cmd/aa-log', 'aa-log')
-    tags = ['file-denied', 'file-allowed', 'dbus', 'cap', 'extra-keys', 'dup-of-file-denied', 'garbled', 'long-apparmor', 'foreign']
+    tags = ['file-denied', 'file-allowed', 'dbus', 'cap', 'extra-keys', 'dup-of-file-denied', 'garbled', 'long-apparmor', 'foreign', 'bad-mask', 'odd-json']
     combos = [list(c) for L in (1, 2) for c in itertools.product(tags, repeat=L)]
     if tier != 'thorough':
         combos = [c for c in combos if len(c) == 1 or (c[0] != c[1] and 'long-apparmor' not in c)][:40]
@@ -77,15 +77,15 @@ def run(tier):
     ev = C.Evidence(PROP, tier); fnd = C.Findings(PROP)
     bins = gox.build(os.path.join(C.scratch(), 'gox'), ['c14x'])
     L = 4 if tier == 'thorough' else 3
-    reduced = 'file-denied,hex-profile,near-noise,child-profile,dotted-profile,dotless-profile,file-allowed,dbus,status,garbled,long-foreign,bulk-foreign,dup-of-file-denied,near-dup-of-file-denied,extra-keys'
+    reduced = 'file-denied,hex-profile,near-noise,odd-json,child-profile,dotted-profile,dotless-profile,file-allowed,dbus,status,garbled,long-foreign,bulk-foreign,dup-of-file-denied,near-dup-of-file-denied,extra-keys'
     if tier == 'thorough':
         # thorough: every sequence of <= 3 records over the whole alphabet, every 4-sequence over the 12-record alphabet
-        jobs = [['-len', '3', '-shard', str(i), '-of', '25'] for i in range(25)]
-        jobs += [['-minlen', '4', '-len', '4', '-only', reduced, '-shard', str(i), '-of', '15'] for i in range(15)]
+        jobs = [['-len', '3', '-shard', str(i), '-of', '27'] for i in range(27)]
+        jobs += [['-minlen', '4', '-len', '4', '-only', reduced, '-shard', str(i), '-of', '16'] for i in range(16)]
     else:
         # quick: every sequence of <= 2 records over the whole alphabet, every triple over a 9-record alphabet
-        jobs = [['-len', '2', '-shard', str(i), '-of', '25'] for i in range(25)]
-        jobs += [['-minlen', '3', '-len', '3', '-only', reduced, '-shard', str(i), '-of', '15'] for i in range(15)]
+        jobs = [['-len', '2', '-shard', str(i), '-of', '27'] for i in range(27)]
+        jobs += [['-minlen', '3', '-len', '3', '-only', reduced, '-shard', str(i), '-of', '16'] for i in range(16)]
 
     def shard(a):
         r = subprocess.run([bins['c14x'], '-mode', 'c14'] + a, capture_output=True, text=True, env=dict(os.environ, TMPDIR=C.scratch()))
